@@ -126,7 +126,8 @@ NESTED = ["a,b(c,d),e", "f(a=1,b=g(x,y)),h", "a(b", "a)b", "(a,b),(c,d)", "a{b,c
 BRACKETS = [("(", ")"), ("{", "}"), ("[", "]"), ("((", "))"), ("", ")"), ("(", ""), ("", ""), ("a", "a"), ("<", ">"), ("(", "(")]
 KV = ["name(a=1,b=2)", "Gamma(n=4, alpha=0.5)", "f(a=1,b=g(x=2,y=3), c = 4)", "f()", "f", "f(", "f)", ")(", "f(a)", "f(=)", "f(a=)", "f(=1)",
       "f(a==1)", "f(a=1,,b=2)", "f(a=1) x", "f(a=1)  ", "  f (a = 1 , b = (1,2,3))", "a=1,b=2", "a = 1, b = 2", "=", "a=", "=b", "a=b=c",
-      "Simple(values=(1,2),probas=(0.5,0.5))", "Mixture(probas=(0.3,0.7),dist1=Gamma(n=2),dist2=Constant(value=1))", "f(a=1,b=2))", "f((a=1)"]
+      "Simple(values=(1,2),probas=(0.5,0.5))", "Mixture(probas=(0.3,0.7),dist1=Gamma(n=2),dist2=Constant(value=1))", "f(a=1,b=2))", "f((a=1)",
+      "=,b", "a,=,b", "=,=", "a,=", "f(=,b)", "f(a,=,b)", "f(a , = , b)", "f(=, =)", "a=1,=,2", "f(a=1,=,2)"]
 GLOBP = ["*", "a*", "*a", "a*b", "*a*", "ab", "", "**", "a**b", "*.kappa", "HKY85.*", "T92.theta_*", "a*a", "*ab*ab", "a*b*c"]
 GLOBN = ["", "a", "ab", "abab", "aab", "ba", "HKY85.kappa", "T92.theta_1", "abc", "aXbXc", "a*b", "*"]
 COMMENTS = ["a=1 # comment", "a=1 // c", "a = /* c */ 1", "/* a */ b /* c */", "a /* unterminated", "# only", "//", "/*/", "/**/", "a*/b/*c",
@@ -339,6 +340,12 @@ def exhaustive(tier):
             ops.append("tt.rmsub %s %s %s" % (hx(s), hx("("), hx(")")))
             ops.append("tt.rmsub5 %s %s %s 1 %s 1 %s" % (hx(s), hx("("), hx(")"), hx("a("), hx(")a")))
     for n in range(L + 1):
+        for t in itertools.product("a=, ", repeat=n):
+            s = "".join(t)
+            ops.append("kv.multi %s %s 0" % (hx(s), hx(",")))
+            ops.append("kv.multi %s %s 1" % (hx(s), hx(",")))
+            ops.append("kv.change %s %s 1 1 %s %s" % (hx("f(" + s + ")"), hx(","), hx("a"), hx("Z")))
+    for n in range(L + 1):
         for t in itertools.product("a/.", repeat=n):
             s = "".join(t)
             ops += ["ft.name %s %s" % (hx(s), hx("/")), "ft.parent %s %s" % (hx(s), hx("/")), "ft.ext %s" % hx(s)]
@@ -364,6 +371,32 @@ def exhaustive(tier):
 TRUNCEXP = "TruncExponential".encode().hex()
 
 
+FUZZ_INFO = {}
+
+
+def fuzz_cases(seed, tier):
+    """thorough tier: the coverage-guided stage (tools/gen_c16_fuzz.py) — what libFuzzer found is
+    replayed as ordinary operations"""
+    import os, sys, importlib.util
+    if tier != "thorough":
+        FUZZ_INFO.update({"fuzz_status": "quick tier: not run"})
+        return []
+    secs = int(os.environ.get("VERIF_C16_FUZZ_S", "150"))
+    here = os.path.dirname(os.path.dirname(os.path.abspath(__file__)))
+    spec = importlib.util.spec_from_file_location("gen_c16_fuzz", os.path.join(here, "tools", "gen_c16_fuzz.py"))
+    fz = importlib.util.module_from_spec(spec)
+    spec.loader.exec_module(fz)
+    try:
+        import types
+        ops, info = fz.run(types.SimpleNamespace(**{k: v for k, v in globals().items() if k.isupper()}), seed, secs)
+    except Exception as e:          # the search stage must never break the check
+        ops, info = [], {"fuzz_status": "error: %r" % (e,)}
+    FUZZ_INFO.clear(); FUZZ_INFO.update(info)
+    alone = [l for k, l in ops if k == "artifact" or l.startswith("at.vars")]
+    rest = [l for k, l in ops if not (k == "artifact" or l.startswith("at.vars"))]
+    return [["case fuzz-single%d" % i, l] for i, l in enumerate(alone)] + chunk("fuzz", rest, 150)
+
+
 def generate(seed, tier):
     rng = random.Random(seed)
     n = 40000 if tier == "thorough" else 6000
@@ -380,6 +413,9 @@ def generate(seed, tier):
         ops = [o for o in ops if not alone(o)]
         cases += chunk(f.__name__[2:], ops, 150)
         cases += [["case %s-single%d" % (f.__name__[2:], i), o] for i, o in enumerate(single)]
+    # the extra batches of check.py's directed search (seed * 1000 + k) do not re-run the fuzzer
+    if seed < 1000:
+        cases += fuzz_cases(seed, tier)
     return cases
 
 
@@ -406,4 +442,6 @@ def coverage_extra(cases, answers):
                 if m <= lim:
                     lens[key] += 1
                     break
-    return {"outcome_classes_by_family": cls, "longest_argument_length_histogram": lens}
+    out = {"outcome_classes_by_family": cls, "longest_argument_length_histogram": lens}
+    out.update(FUZZ_INFO)
+    return out
